@@ -138,7 +138,7 @@ def run_l1(pid, tier, seed):
         for sh in range(shards):
             jobs.append((pid, model, kind, n // shards, seed * 1000 + ci * 50 + sh, corpus if sh == 0 else []))
     ejobs = []
-    if pid in ("C01", "C02"):
+    if pid in ("C01", "C02", "C04"):
         ne = 400 if tier == "quick" else 24000
         esh = 2 if tier == "quick" else 8
         ejobs = [(pid, which, ne // esh, seed * 811 + 13 * k + (0 if which == "tbuffer" else 7)) for which in ("tbuffer", "tfleet") for k in range(esh)]
